@@ -103,6 +103,20 @@ class World:
             else:
                 if not np.allclose(inv.apply(al.target.points), al.source.points, atol=1e-8 * self.diam):
                     return "pseudoinverse of the warp does not send target landmarks back onto source landmarks"
+            # the inverse is itself an alignment (from the old target to the old source): retargeting it equals building the
+            # same class, with the same options, from ITS source to the new target
+            cfg = ev["als"][ev["a"] - 1]["cfg"]
+            if cfg != "pwa":
+                for v in (1, 2, 6):
+                    X = self.targets[v]
+                    inv2 = al.pseudoinverse()
+                    src2 = inv2.source.points.copy()
+                    inv2.set_target(PointCloud(X.copy()))
+                    fresh = _ctor(cfg)(PointCloud(src2.copy()), PointCloud(X.copy()))
+                    same = (L.close(inv2.h_matrix, fresh.h_matrix, 1e-9) if hasattr(fresh, "h_matrix")
+                            else np.allclose(inv2.apply(self.src_pts), fresh.apply(self.src_pts), atol=1e-8 * self.diam))
+                    if not same or not np.array_equal(inv2.source.points, src2) or not L.close(inv2.target.points, X, 0):
+                        return "retargeting the inverse alignment differs from building it afresh from its own source (target value %d)" % v
         elif op == "copy":
             self.als.append(self.als[ev["a"] - 1].copy())
             self.src_objs.append(self.src_objs[ev["a"] - 1])
